@@ -18,6 +18,7 @@ import (
 	"strconv"
 	"sync"
 	"sync/atomic"
+	"time"
 
 	"github.com/coredhcp/coredhcp/handler"
 	"github.com/insomniacslk/dhcp/dhcpv4"
@@ -282,4 +283,56 @@ func (c *Capture6) Feed(datagram []byte, oob *ipv6.ControlMessage, peer *net.UDP
 	sink.mu.Lock()
 	defer sink.mu.Unlock()
 	return sink.sent
+}
+
+// NewListening4 opens the socket for one DHCPv4 listen address exactly as Start
+// does (listen4: bound to the zone's interface, or unbound with per-datagram
+// interface information), and returns a socket-less listener with the same
+// interface binding, so that what listen4 decided is judged through HandleMsg4.
+// If a datagram sent to the socket from this host could be read back (probed),
+// ifInfo tells whether it came with the interface it arrived on; this is only
+// attempted for unbound listeners on an address this host can send to.
+func NewListening4(a *net.UDPAddr, handlers []handler.Handler4) (c *Capture4, probed, ifInfo bool, err error) {
+	l, err := listen4(a)
+	if err != nil {
+		return nil, false, false, err
+	}
+	defer l.Close()
+	c = &Capture4{ifi: l.Interface, handlers: handlers}
+	if local, ok := l.LocalAddr().(*net.UDPAddr); ok && a.Zone == "" && !local.IP.IsUnspecified() && !local.IP.Equal(net.IPv4bcast) {
+		if s, derr := net.DialUDP("udp4", nil, local); derr == nil {
+			defer s.Close()
+			if _, werr := s.Write([]byte{0}); werr == nil {
+				_ = l.SetReadDeadline(time.Now().Add(time.Second))
+				b := make([]byte, 16)
+				if _, cm, _, rerr := l.ReadFrom(b); rerr == nil {
+					probed, ifInfo = true, cm != nil && cm.IfIndex != 0
+				}
+			}
+		}
+	}
+	return c, probed, ifInfo, nil
+}
+
+// NewListening6 is the DHCPv6 counterpart of NewListening4 (listen6)
+func NewListening6(a *net.UDPAddr, handlers []handler.Handler6) (c *Capture6, probed, ifInfo bool, err error) {
+	l, err := listen6(a)
+	if err != nil {
+		return nil, false, false, err
+	}
+	defer l.Close()
+	c = &Capture6{ifi: l.Interface, handlers: handlers}
+	if local, ok := l.LocalAddr().(*net.UDPAddr); ok && a.Zone == "" && !local.IP.IsUnspecified() && !local.IP.IsMulticast() {
+		if s, derr := net.DialUDP("udp6", nil, local); derr == nil {
+			defer s.Close()
+			if _, werr := s.Write([]byte{0}); werr == nil {
+				_ = l.SetReadDeadline(time.Now().Add(time.Second))
+				b := make([]byte, 16)
+				if _, cm, _, rerr := l.ReadFrom(b); rerr == nil {
+					probed, ifInfo = true, cm != nil && cm.IfIndex != 0
+				}
+			}
+		}
+	}
+	return c, probed, ifInfo, nil
 }
